@@ -218,7 +218,8 @@ def main(argv=None):
                                   "searched_evaluations": ctx.evaluations}, "tie")
         lines.append(f"VIOLATION property={pid} replay={path} no-failing-input-found")
     wall = time.time() - t0
-    write_evidence(ctx, mod, lean, violations, wall)
+    if not args.no_lean:   # development runs without the Lean stage never write evidence
+        write_evidence(ctx, mod, lean, violations, wall)
     print(f"[{pid}] tier={tier} seed={seed} obligations={len(lean['obligations'])} discharged={len(lean['discharged'])} "
           f"evaluations={ctx.evaluations} distinct_nontrivial={len(ctx.nontrivial)} disagreements={len(ctx.disagreements)} "
           f"pred_failures={len(ctx.pred_failures)} known={len(ctx.known_hits)} wall={wall:.1f}s")
